@@ -151,7 +151,7 @@ impl Prop for C15 {
         "exploration"
     }
     fn rule(&self) -> String {
-        format!("run = on the unmodified `prod` build, for one layer set x data class (incompressible, zeros, text) x level: a generator streams S_small then S_big bytes (quick: 8 MiB and 64 MiB; thorough: 64 MiB and up to 1 GiB) in 1 MiB pieces, or as ONE piece of S bytes generated on the fly (a single content block), into a counting sink (on some runs one that accepts only part of each write and reports interruptions, bursts of up to 40) that spills to a file in a private scratch directory (nothing of the stream is held on the heap by the harness); on some runs a flush follows every fourth piece, on others the stream arrives as records of 500..3000 bytes with a flush after EACH (2 MiB vs 12 MiB; thorough 32 MiB), on others two files are fed alternately piece by piece; the spilled archive is then repaired (unauthenticated mode and, when encrypted, the default authenticated mode) into a counting sink and linearly extracted into counting sinks - once choosing the streamed files, once choosing none of them, so that every content block goes down the skip path -, reading from the spill file through the simulated source. A counting global allocator (wrapper around System) measures the peak live heap above the level at the start of each call. Oracle: peak <= fixed ceiling (write {} MiB, repair {} MiB, linear extraction {} MiB; calibrated at about twice the unchanged tree) and peak(S_big) <= peak(S_small) + 8 MiB + 16 bytes per 4 MiB block (8 MiB = two compression blocks, covers the compressor's own block-to-block variation; a stream buffered in memory would differ by tens of MiB); a second kind of run varies the number of files F and of non-contiguous runs R (interleaved 4 KiB pieces) at a fixed total size and checks growth <= 1 KiB per file + 64 bytes per run above the single-file peak. distinct_nontrivial = distinct (layers, data class, kind, size pair) signatures.", CEIL_WRITE / MIB, CEIL_REPAIR / MIB, CEIL_LINEAR / MIB)
+        format!("run = on the unmodified `prod` build, for one layer set x data class (incompressible, zeros, text) x level: a generator streams S_small then S_big bytes (quick: 8 MiB and 64 MiB; thorough: 64 MiB and up to 1 GiB) in 1 MiB pieces, or as ONE piece of S bytes generated on the fly (a single content block), into a counting sink (on some runs one that accepts only part of each write and reports interruptions, bursts of up to 40) that spills to a file in a private scratch directory (nothing of the stream is held on the heap by the harness); on some runs a flush follows every fourth piece, on others the stream arrives as records of 500..3000 bytes with a flush after EACH (2 MiB vs 12 MiB; thorough 32 MiB), on others two files are fed alternately piece by piece; the spilled archive is then repaired (unauthenticated mode and, when encrypted, the default authenticated mode) into a counting sink and linearly extracted into counting sinks - once choosing the streamed files, once choosing none of them, so that every content block goes down the skip path -, reading from the spill file through the simulated source. A counting global allocator (wrapper around System) measures the peak live heap above the level at the start of each call. Oracle: peak <= fixed ceiling (write {} MiB, repair {} MiB, linear extraction {} MiB; calibrated at about twice the unchanged tree) and peak(S_big) <= peak(S_small) + 8 MiB + 16 bytes per 4 MiB block (for repair and linear extraction of archives without compression: + 16 KiB instead of 8 MiB - the unchanged tree differs by less than 1 KiB there) (8 MiB = two compression blocks, covers the compressor's own block-to-block variation; a stream buffered in memory would differ by tens of MiB); a second kind of run varies the number of files F and of non-contiguous runs R (interleaved 4 KiB pieces) at a fixed total size and checks growth <= 1 KiB per file + 64 bytes per run above the single-file peak. distinct_nontrivial = distinct (layers, data class, kind, size pair) signatures.", CEIL_WRITE / MIB, CEIL_REPAIR / MIB, CEIL_LINEAR / MIB)
     }
     fn assumptions(&self) -> Vec<String> {
         vec!["allocation failure is not injected (Rust aborts on OOM); the allocator seam only measures".into(), "the file system under the spill file is real, in a private directory removed after the run".into()]
@@ -238,9 +238,16 @@ impl Prop for C15 {
                 for (what, pa, pb, ceil) in [("write", a.write, b.write, CEIL_WRITE), ("repair", a.repair, b.repair, CEIL_REPAIR), ("linear-extract", a.linear, b.linear, CEIL_LINEAR), ("linear-extract-skipping", a.linear_skip, b.linear_skip, CEIL_LINEAR)] {
                     ctx.eval();
                     ctx.probe_n(&format!("peak-{what}-KiB-max"), 0);
+                    if std::env::var("MLASIM_C15_DEBUG").is_ok() {
+                        eprintln!("C15DBG {what} {cls} small={pa} big={pb} diff={}", pb as i64 - pa as i64);
+                    }
                     if pb > ceil || pa > ceil {
                         v.push(Violation::new("memory-ceiling", format!("{what}|{cls}"), format!("{what}: peak live heap {pa} bytes for {} MiB and {pb} bytes for {} MiB streamed, ceiling {ceil}", small / MIB, big / MIB)));
                     }
+                    // reading an archive WITHOUT compression involves no block-to-block variation of a codec: on the unchanged
+                    // tree the two peaks differ by less than 1 KiB, so the allowance there is 16 KiB (+ the per-block and
+                    // per-run terms) instead of 8 MiB
+                    let tol = if what != "write" && !case.cfg.comp() { tol - 8 * MIB + 16 * 1024 } else { tol };
                     if pb > pa + tol {
                         v.push(Violation::new("memory-grows-with-data", format!("{what}|{cls}"), format!("{what}: peak live heap {pa} bytes for {} MiB but {pb} bytes for {} MiB streamed (tolerance {tol})", small / MIB, big / MIB)));
                     }
